@@ -31,34 +31,34 @@ CHECKS = {
              'For every abstract parser state and every terminal (insert / replace / delete / truncate; each also with one token per line), every statement concatenation in 9 layouts and with a line break at every position, statement x every sequence of <=2 separator atoms (semicolon, blank, line break, line / block comments) x statement or garbage x 12 tails, and every valid edge/production-pair sentence, parse_sql is run and every accepted text must be a sentence of the grammar according to two independent recognisers. Covers every reachable error cell of the action tables, which is where recovery could resynchronise.',
              'Trusts the live lexer for the token stream; bounded to one (thorough: two, and k=2 states) token deviations from witness sentences.', 'DESIGN.md 3/C05, 2/E1'),
     'C06': C('exploration', 'QGEN+SQLREF', BEX + ': feature-model enumeration of statements (<= d non-default features + full products) x all small databases; differential execution in sqlite with an answer-set oracle',
-             'Original text and SQLAlchemy rendering (sqlite, mysql, postgresql targets) are executed on identical databases for every statement and every database within the bound; rows, order where the query fixes it (ties and LIMIT judged by the set of legal answers), explicit aliases and DML/DDL effects (table contents with storage classes) must agree. Join feature includes every three-table chain over (kind, condition?) pairs. Generated DML: UPDATE set shape x WHERE shape, DELETE x WHERE shape, INSERT column list x value kinds (incl. strings with backslash / quote / percent / colon) x row count, INSERT ... SELECT x the SELECT model; effects compared inside rolled-back transactions on every database. Failures are minimised to the smallest failing feature set.',
+             'Original text and SQLAlchemy rendering (sqlite, mysql, postgresql targets) are executed on identical databases for every statement and every database within the bound; rows, order where the query fixes it (ties and LIMIT judged by the set of legal answers), explicit aliases and DML/DDL effects (table contents with storage classes) must agree. Join feature includes every three-table chain over (kind, condition?) pairs. Generated DML: UPDATE set shape x WHERE shape, DELETE x WHERE shape, INSERT column list x value kinds (incl. strings with backslash / quote / percent / colon) x row count, INSERT ... SELECT x the SELECT model; effects compared inside rolled-back transactions on every database. Every SELECT is also rendered by a renderer object with a fixed history of other (partly unsupported) statements; sub-queries that read the outer table again un-aliased; ORDER BY by output position. Failures are minimised to the smallest failing feature set.',
              'sqlite 3.40 as reference engine; dialect-divergent operators excluded; mssql/oracle output is not executable here.', 'DESIGN.md 3/C06'),
     'C07': C('exploration', 'literal scanners', BEX + ': all strings up to length 3 (thorough 4) over a collision alphabet + other constant types x 7 tree positions x 6 renderings; per-target lexical scanner + sqlite / library read-back; all ordered pairs of twin values',
              'The rendering with value v must have the same token skeleton as the rendering with a benign value and its literal must denote v under the target lexical rules (to_string literals are also read back by the live lexer). All ordered pairs of 18 twin values (0/False/0.0, 1/True/1.0/"1", ...) as two constants of one statement (7 positions) and as two statements on one renderer object must be written exactly as each is written alone by a new renderer. Temporal values are a boundary product (date x time of day x every sub-second digit position), numbers a product mantissa x decimal exponent x sign plus machine-word boundaries.',
              'Target lexical rules written from documentation (mysql backslash escapes; standard quoting elsewhere).', 'DESIGN.md 3/C07'),
     'C08': C('exploration', 'QGEN+PLANX+SQLREF', BEX + ': feature-model enumeration of federated queries x catalog shapes x all small databases; plans interpreted by an independent reference interpreter written from the step docstrings, compared with sqlite running the original text',
-             'Each plan is interpreted step by step on every database (NULLs, duplicates, unmatched keys, empty tables) and must return a legal answer of the original query. 32 query shapes (joins, three-table key chains, sub-queries incl. cross-integration joins inside them, set operations, CTEs incl. name collisions, derived tables with LIMIT/OFFSET/DISTINCT) x 9 join kinds x 23 ON shapes x 37 WHERE shapes ...; join kind x every pushdown source is a full product. A fetch that names a table of another integration cannot be carried out. Also: a CTE over another integration referenced only from a sub-query (6 shapes, incl. one named like a real table), and constant-first comparisons for every binary operator (incl. LIKE / NOT LIKE / IN) on either side. Failures are minimised to the smallest failing feature set.',
+             'Each plan is interpreted step by step on every database (NULLs, duplicates, unmatched keys, empty tables) and must return a legal answer of the original query. 32 query shapes (joins, three-table key chains, sub-queries incl. cross-integration joins inside them, set operations, CTEs incl. name collisions, derived tables with LIMIT/OFFSET/DISTINCT) x 9 join kinds x 23 ON shapes x 37 WHERE shapes ...; join kind x every pushdown source is a full product. A fetch that names a table of another integration cannot be carried out. Also: a CTE over another integration referenced only from a sub-query (6 shapes, incl. one named like a real table), and constant-first comparisons for every binary operator (incl. LIKE / NOT LIKE / IN) on either side. Chains of two set operations (13 operator pairs), selects over a derived table with outer sub-queries on another integration, databases with whole rows duplicated in one table only; the same statement planned twice on one QueryPlanner must give the same plan (a differing second plan is interpreted too). Failures are minimised to the smallest failing feature set.',
              'sqlite as reference engine; step meaning = docstrings as implemented in vf/planx.py; predictor-free queries.', 'DESIGN.md 3/C08, 2/E3'),
     'C09': C('exploration', 'QGEN+GSX+REFLECT', BEX + ': all planner inputs of the query models + every accepted GSX sentence rooted in a plannable statement under naming schemes x catalogs; reflective scan of every Result reference; ' + HIST_T,
-             'Numbering, forward-only references (including sub-steps of map-reduce / multi-step containers and Parameter(Result) inside embedded queries), answer-producing last step and the exception contract are checked on every emitted plan, also on the second plan of every two-step history (same process / same planner object) over a planner corpus.',
+             'Numbering, forward-only references (including sub-steps of map-reduce / multi-step containers and Parameter(Result) inside embedded queries), answer-producing last step and the exception contract are checked on every emitted plan, also on the second plan of every two-step history (same process / same planner object) over a planner corpus. Every fetch / apply step has to feed the last step (dataflow reachability). Inputs include the sibling-pair cover of the grammar.',
              'Bounded by the query models and grammar covers; ~125k planner inputs in the quick tier.', 'DESIGN.md 3/C09'),
     'C10': C('exploration', 'REFLECT', BEX + ': full product table/model position x qualifier spelling x catalog encoding; independent resolver + metamorphic comparison across spellings and encodings',
-             'Every table position the property lists (46, incl. sub-queries / CTEs / derived tables with a cross-integration join, qualified columns in DML, CTEs named like a foreign table) and 14 model positions (incl. two versions of one model in one statement) are probed with every qualifier spelling under every catalog encoding; star targets qualified with the integration in 7 positions; fetch queries and delete filters are scanned reflectively for table mentions and qualifiers.',
+             'Every table position the property lists (46, incl. sub-queries / CTEs / derived tables with a cross-integration join, qualified columns in DML, CTEs named like a foreign table) and 14 model positions (incl. two versions of one model in one statement) are probed with every qualifier spelling under every catalog encoding; star targets qualified with the integration in 7 positions; all probes repeated after planners over role-swapped catalogs were used in the process; bare table names that coincide with a model and unknown qualifiers under a data integration as default namespace; fetch queries and delete filters are scanned reflectively for table mentions and qualifiers.',
              '46 table positions, 14 model positions, 5 spellings, 5 catalog encodings.', 'DESIGN.md 3/C10'),
     'C11': C('exploration', 'QGEN+PLANX+SQLREF', BEX + ': the C06 SELECT feature model restricted to one integration + alias/qualifier/star/CTE-name collision shapes; structural and executed comparison',
-             'Plan must be a single fetch whose tree equals the original minus the qualifier and which returns the same rows and column names on every database. The integration is also given 10 other names (containing files / views / mindsdb / information_schema, or spelt with capitals in the catalog), and column names that need quoting (dot, blank, keyword, capitals, leading digit, non-ASCII) are placed in 8 positions.',
+             'Plan must be a single fetch whose tree equals the original minus the qualifier and which returns the same rows and column names on every database. The integration is also given 10 other names (containing files / views / mindsdb / information_schema, or spelt with capitals in the catalog), and column names that need quoting (dot, blank, keyword, capitals, leading digit, non-ASCII) are placed in 8 positions. Catalogs with class_type None / sql; the extra shapes repeated after planners over role-swapped catalogs.',
              'sqlite as reference engine.', 'DESIGN.md 3/C11'),
     'C12': C('model_checking', 'history BFS', 'explicit-state breadth-first search over prepare / feed / info / execute call histories on one planner object + exhaustive enumeration of placeholder subsets of statement templates',
-             'Every subset of <=3 literal slots of 42 templates (every expression position the property lists, incl. select list together with positions inside FROM / CTE bodies / EXISTS / three-way unions) is bound through get_query_params/fill_query_params and through prepare_steps/execute_steps and compared with inline literals on a fresh planner; 96 generated SELECT templates carry every subset of the optional clauses (HAVING without GROUP BY ...) over a table / join / derived table; a refused wrong-count execution must leave the prepared statement executable with the plan of the inline statement; all call histories of depth 3 (thorough 4) over 6 operations are explored per template and the stated transitions judged.',
+             'Every subset of <=3 literal slots of 42 templates (every expression position the property lists, incl. select list together with positions inside FROM / CTE bodies / EXISTS / three-way unions) is bound through get_query_params/fill_query_params and through prepare_steps/execute_steps and compared with inline literals on a fresh planner; 96 generated SELECT templates carry every subset of the optional clauses (HAVING without GROUP BY ...) over a table / join / derived table; a refused wrong-count execution must leave the prepared statement executable with the plan of the inline statement; every slot is bound to every kind of value (booleans, NULL, float, strings, negative / large integers) and compared with the inline literal; all call histories of depth 3 (thorough 4) over 6 operations are explored per template and the stated transitions judged.',
              'Prepare steps are answered with "unknown"; history state abstraction = (operation, outcome).', 'DESIGN.md 3/C12'),
     'C13': C('exploration', 'GSX+REFLECT', BEX + ': every accepted GSX sentence (edge, production-pair and production-triple cover) rooted in a query/DML/CREATE TABLE statement with numbered lexemes; reflective ground truth; one replacing traversal per visited node',
-             'Visit-once, textual order, is_table/is_target flags and exact replacement (every slot through which the object is reachable must receive the returned node; the returned node rotates through identifier, empty tuple, 0, empty string, NULL) are judged against a reflective walk of the object graph for every node kind in every position the grammars can build. A raw python value handed to the visitor (text inside an INTERVAL, a list) is a violation; sibling-pair cover included.',
+             'Visit-once, textual order, is_table/is_target flags and exact replacement (every slot through which the object is reachable must receive the returned node; the returned node rotates through identifier, empty tuple, 0, empty string, NULL) are judged against a reflective walk of the object graph for every node kind in every position the grammars can build. A raw python value handed to the visitor (text inside an INTERVAL, a list) is a violation; sibling-pair cover included. The visitor must not be called below a node it returned (also when it returns the node itself).',
              'Required/tolerated node classes as listed in DESIGN.md.', 'DESIGN.md 3/C13'),
     'C14': C('exploration', 'QGEN+REFLECT', BEX + ': feature-model enumeration of table-model joins (shape x WHERE shape x alias x USING x catalog) with a structured ground-truth description per query',
-             'Apply-step count and input, row_dict, pushed filters, USING params and columns_map are compared with the generator description; 24 shapes (incl. ON clauses with extra / OR / NOT / constant-first conditions, tables and sub-selects joined after the model), 28 WHERE shapes, 8 USING forms, 9 catalogs; boolean context x condition owner is a full product. Two aliased models (with a table between), per-model partition sizes / options, catalogs whose two models predict different columns; shape x WHERE x catalog is a full product; every statement is also planned after two other statements of the process; semi-join filters (col IN <result>) are judged against the ON equalities of the statement.',
+             'Apply-step count and input, row_dict, pushed filters, USING params and columns_map are compared with the generator description; 24 shapes (incl. ON clauses with extra / OR / NOT / constant-first conditions, tables and sub-selects joined after the model), 28 WHERE shapes, 8 USING forms, 9 catalogs; boolean context x condition owner is a full product. Two aliased models (with a table between), per-model partition sizes / options, catalogs whose two models predict different columns; shape x WHERE x catalog is a full product; every statement is also planned after two other statements of the process; semi-join filters (col IN <result>) are judged against the ON equalities of the statement. 10 more ON clauses of a model join (function, NOT, OR, BETWEEN, sub-query ...), look-alike conjuncts on a model and a table column, table conditions with a model column as operand.',
              'Conditions on model columns under OR/NOT/functions are recorded, not judged.', 'DESIGN.md 3/C14'),
     'C15': C('exploration', 'PLANX+SQLREF', BEX + ': full product of time conditions x partition filters x window x group columns x side x LIMIT, interpreted on ALL table contents with <=3 (thorough 4) rows',
-             'The dataframe handed to the time-series model is computed by interpreting the plan and compared with the specification evaluated directly on the table (ties: any maximal choice); 16 unsupported shapes must be rejected. The WHERE conjuncts are also arranged as 9 other AND trees (order, nesting, parentheses; partition filter on two columns); unsupported clauses written inside a data sub-select must be refused or carried out, never dropped.',
+             'The dataframe handed to the time-series model is computed by interpreting the plan and compared with the specification evaluated directly on the table (ties: any maximal choice); 16 unsupported shapes must be rejected. The WHERE conjuncts are also arranged as 9 other AND trees (order, nesting, parentheses; partition filter on two columns); unsupported clauses written inside a data sub-select must be refused or carried out, never dropped. Boundary windows 0 and 5; the second plan of each statement on a reused QueryPlanner is judged.',
              'sqlite runs the per-partition fetches; 286 (thorough 1001) table contents.', 'DESIGN.md 3/C15'),
     'C16': C('exploration', 'GSX lexemes', BEX + ': all balanced lexeme sequences of length <=3 (thorough 4) over a 38-lexeme collision alphabet x 15 embedding commands x 5 layouts, plus every accepted grammar sentence as inner query',
              'Source slices of the live lexer tokens of inner text and stored text must be equal and both must parse to the same tree. Twin lexemes (one name as identifier / @variable / @@variable / each quoted form): all sequences of <=2, and each embedded after each other one was lexed by an earlier statement of the same process.',
@@ -70,10 +70,10 @@ CHECKS = {
              'copy()/deepcopy independence is checked by mutating every attribute / list / dict of a copy and fingerprinting the original; equality laws against 9 partner kinds; every plan against its prefix / extended / swapped / replaced-step variants (equal plans must print the same).',
              'Plans come from a fixed two-integration catalog.', 'DESIGN.md 3/C18'),
     'C19': C('model_checking', 'GSX', GSX_T + '; oracle: generated text positions + recovery-free PDA for the offending token and for acceptability of suggestions',
-             'Every rejected one-token deviation at every abstract state (all reachable error cells) plus layout variants of one representative per state, illegal characters at every position and after every token that can span a line break, and errors at the end of pumped lists (3, 40, 2500 elements).',
+             'Every rejected one-token deviation at every abstract state (all reachable error cells) plus layout variants of one representative per state, illegal characters at every position and after every token that can span a line break, and errors at the end of pumped lists (3, 40, 2500 elements). Every end-of-query truncation is also judged after another truncation that stops in the same parser state was rejected in the process.',
              'Only token texts are compared between shown and source lines; placeholders are not judged.', 'DESIGN.md 3/C19'),
     'C20': C('model_checking', 'SCHED', 'stateless schedule exploration of real threads under a cooperative scheduler (sys.monitoring scheduling points, iterative preemption bounding, every simple global restored to its import-time value before each schedule) + explicit-state BFS over call histories with global-state fingerprints + ' + HIST_T + ' + finite hash-seed sweep',
-             'All schedules with <=1 preemption for 21 colliding call pairs (bound 2 at coarse granularity for 4 pairs; LINE granularity in named functions), all call histories of depth 3 over 25 operations sharing catalog and renderer objects, all ordered pairs of a planner corpus as process histories and on one reused QueryPlanner, an order differential (the one-token deviations of every parser state parsed front-to-back and back-to-front in two fresh processes must be answered alike), read-only calls (str, repr, ==, copy, walk) on the tree before planning / rendering, all ordered pairs of 192 renderer operations (renderers made by dialect name / dialect class / shared), seeds 0..3 in fresh interpreters (thorough: bound 2 for all pairs, triples, depth 4, full corpus, 34 seeds). Every observation must equal the fresh reference.',
+             'All schedules with <=1 preemption for 21 colliding call pairs (bound 2 at coarse granularity for 4 pairs; LINE granularity in named functions), all call histories of depth 3 over 25 operations sharing catalog and renderer objects, all ordered pairs of a planner corpus as process histories and on one reused QueryPlanner, an order differential (the one-token deviations of every parser state parsed front-to-back and back-to-front in two fresh processes must be answered alike), read-only calls (str, repr, ==, copy, walk) on the tree before planning / rendering, planner-reuse histories under a catalog without default namespace, an order differential over planner inputs, all ordered pairs of 192 renderer operations (renderers made by dialect name / dialect class / shared), seeds 0..3 in fresh interpreters (thorough: bound 2 for all pairs, triples, depth 4, full corpus, 34 seeds). Every observation must equal the fresh reference.',
              'Scheduling points are function boundaries of repository code; hash seeds are a finite sweep, not exhaustive; free-running pass is sampling.', 'DESIGN.md 3/C20, 2/E5'),
 }
 
